@@ -207,6 +207,9 @@ class SchedRun:
             self.stalled_apps += 1
             self.sched.block(lambda: False, "app.stall")
             return
+        if what == "pause":
+            self.sched.block(lambda: sum(len(c.client_rx) for c in self.conns) >= k or all(c.closed for c in self.conns), "app.pause")
+            return
         self.sched.yield_point("app." + what)
 
     def _has_response_progress(self, ci, base):
